@@ -130,6 +130,12 @@ func ReadFromSRT(i io.Reader) (o *Subtitles, err error) {
 			}
 		}
 	}
+
+	// The scan stops silently on a read error or on a line that doesn't fit the scanner's buffer
+	if err = scanner.Err(); err != nil {
+		err = fmt.Errorf("astisub: scanning failed: %w", err)
+		return
+	}
 	return
 }
 
